@@ -12,7 +12,7 @@ import time
 
 VERIF = os.path.dirname(os.path.dirname(os.path.abspath(__file__)))
 REPO = os.environ.get('VERIF_REPO', '/repo')
-COQ_DIR = os.path.join(VERIF, 'coq')
+COQ_DIR = os.environ.get('VERIF_COQ_DIR', os.path.join(VERIF, 'coq'))
 THEORIES = os.path.join(COQ_DIR, 'theories')
 BUILD_ROOT = os.path.join(VERIF, 'build')
 REPLAY_ROOT = os.path.join(VERIF, 'replays')
@@ -185,7 +185,7 @@ def infer_when(fails, passes):
         return 'always', 'no passing sample of this protocol was seen'
     keys = [k for k in fails[0] if all(isinstance(f.get(k), int) and not isinstance(f.get(k), bool) for f in fails)
             and all(isinstance(q.get(k), int) for q in passes)]
-    for k in keys:
+    for k in keys if len(fails) >= 3 and len(passes) >= 3 else []:
         lo_f = min(f[k] for f in fails)
         hi_f = max(f[k] for f in fails)
         # only natural thresholds are trusted (a power of two, or the minimum), never a sampling artefact
@@ -193,6 +193,8 @@ def infer_when(fails, passes):
             return '%s >= %d' % (k, lo_f), 'threshold'
         if all(q[k] > hi_f for q in passes) and (hi_f == 0 or (hi_f + 1) & hi_f == 0):
             return '%s <= %d' % (k, hi_f), 'threshold'
+    if len(fails) < 6 or len(passes) < 6:
+        return 'always', 'too few samples to trust a bit predicate (coarse entry)'
     for k in keys:
         for b in range(0, 64):
             if all((f[k] >> b) & 1 for f in fails) and not any((q[k] >> b) & 1 for q in passes):
@@ -231,8 +233,8 @@ def ensure_static_build():
     if not os.path.exists(mk):
         subprocess.run(['coq_makefile', '-f', '_CoqProject', '-o', 'Makefile'], cwd=COQ_DIR, check=True,
                        stdout=subprocess.DEVNULL)
-    p = subprocess.run(['timeout', '1800', 'make', '-j%d' % NCPU], cwd=COQ_DIR, stdout=subprocess.PIPE,
-                       stderr=subprocess.STDOUT, text=True)
+    p = subprocess.run(['flock', os.path.join(COQ_DIR, '.build.lock'), 'timeout', '1800', 'make', '-j%d' % NCPU],
+                       cwd=COQ_DIR, stdout=subprocess.PIPE, stderr=subprocess.STDOUT, text=True)
     if p.returncode != 0:
         sys.stdout.write(p.stdout[-4000:])
         raise RuntimeError('static Coq development does not build')
